@@ -17,6 +17,9 @@ fn reader_with(s: &[u8], pre: usize, chunk: usize, step: usize) -> (DeferredRead
         r = DeferredReader::from_boxed_dyn_read(boxed);
         r.set_chunk_size(pre);
         r.request_more();
+    } else if chunk == 1 && step == 100 {
+        // an unused BufReader in front adds nothing: the reader takes the source out of it (its capacity must not become a read size)
+        r = DeferredReader::from_buf_reader(std::io::BufReader::with_capacity(8, src));
     } else {
         r = DeferredReader::from_read(src);
     }
@@ -151,8 +154,8 @@ fn check_c16_inner(si: usize, s: &[u8], offset: usize, pre: usize, chunk: usize,
     if b.len() > s.len() || b[..] != s[..b.len()] {
         return Some(("C16 the scanner consumes nothing itself".into(), format!("{} at offset {} of {:?}: buffered data afterwards {:?}", sc_name(sc), offset, show(s), show(&b))));
     }
-    if chunk == 1 && step == 1 {
-        // one byte per read: the bytes delivered are exactly the ones needed to decide (or the ones that were there before)
+    if chunk == 1 {
+        // one byte per read (chunk size 1, whatever the source would hand out): the bytes delivered are exactly the ones needed to decide (or the ones that were there before)
         let allowed = d0.max(needed.min(s.len()));
         if m.delivered.get() > allowed {
             return Some((
@@ -367,7 +370,7 @@ pub fn suite(prop: &str, tier: &str, _seed: u64) -> Report {
             for si in 0..SCANNERS.len() {
                 for offset in 0..=s.len() + 1 {
                     for pre in 0..=s.len() + 1 {
-                        for &(chunk, step) in &[(1usize, 1usize), (3, 2), (16, 100)] {
+                        for &(chunk, step) in &[(1usize, 1usize), (3, 2), (16, 100), (1, 100)] {
                             rep.runs += 1;
                             let r = check_c16(si, s, offset, pre, chunk, step);
                             fail(&mut rep, "c16", vec![si.to_string(), offset.to_string(), pre.to_string(), chunk.to_string(), step.to_string()], s, r);
@@ -402,6 +405,21 @@ pub fn suite(prop: &str, tier: &str, _seed: u64) -> Report {
                     }
                 }
                 level = next;
+            }
+        }
+        // longer lines with multi-byte characters and invalid bytes (8-byte-at-a-time fast paths see them only with enough data buffered)
+        for s in [&b"ab \xc3\xa9\xc3\xba\xc3\xb1 cdefgh\nxyz"[..], b"\xe2\x80\x94\xe2\x80\x94 \t\xf0\x9f\x98\x80 tail\r\nx", b"        \xa0\x8a\x8d\xff\x80 0123456789\n", b"\xc3\xa9\n\xc3\xa9\r\n\xc3\xa9\xc3\xa9\xc3\xa9\xc3\xa9\xc3\xa9\xc3\xa9\xc3\xa9"] {
+            rep.inputs += 1;
+            for si in 0..SCANNERS.len() {
+                for offset in 0..=s.len() + 2 {
+                    for pre in [0usize, 8, 9, 16, s.len(), s.len() + 1] {
+                        for &(chunk, step) in &[(1usize, 1usize), (16, 100)] {
+                            rep.runs += 1;
+                            let r = check_c16(si, s, offset, pre, chunk, step);
+                            fail(&mut rep, "c16", vec![si.to_string(), offset.to_string(), pre.to_string(), chunk.to_string(), step.to_string()], s, r);
+                        }
+                    }
+                }
             }
         }
         // the same scanners after a history of requests and advances (realigned buffers) and with interrupted reads
